@@ -183,8 +183,8 @@ func solveAll(cfg Config, units []*Unit, keep func(o *sym.Obligation) bool, outD
 				j.R = solve.Result{Answer: "error", Output: "script larger than the 768 KiB cap"}
 			} else {
 				limit := cfg.limit()
-				if j.O.Cover && cfg.Tier != "thorough" && limit > 3*time.Second {
-					limit = 3 * time.Second // anti-vacuity checks must answer sat; quantified facts often make that slow
+				if j.O.Cover && cfg.Tier != "thorough" && limit > 2*time.Second {
+					limit = 2 * time.Second // anti-vacuity checks must answer sat; quantified facts often make that slow
 				}
 				j.R = solve.Race(j.Script, outDir, fmt.Sprintf("ob%05d", i), limit, cfg.Seed, cfg.Tier == "thorough" && !j.O.Cover)
 			}
@@ -263,6 +263,9 @@ func Verify(cfg Config, only, prop string) int {
 			okN++
 			if cfg.Verbose {
 				fmt.Printf("ok   %-7s %-6s %5.2fs %s\n", j.R.Answer, j.R.Solver, j.R.Time.Seconds(), j.O.Name)
+				if os.Getenv("GOVC_PATHS") != "" {
+					fmt.Printf("      path: %s\n", j.O.Path)
+				}
 			}
 		case "dead-path", "cover-inconclusive":
 			if cfg.Verbose {
